@@ -15,6 +15,7 @@
 package tls
 
 import (
+	"bytes"
 	"crypto"
 	"crypto/dsa" //nolint:staticcheck
 	"crypto/ecdsa"
@@ -34,6 +35,20 @@ import (
 
 type dsaSig struct {
 	R, S *big.Int
+}
+
+// checkExactDER returns an error unless encoded, without the trailing bytes
+// rest, is exactly the DER encoding of sig: asn1.Unmarshal accepts additional
+// elements after S inside the SEQUENCE.
+func checkExactDER(encoded, rest []byte, sig dsaSig) error {
+	want, err := asn1.Marshal(sig)
+	if err != nil {
+		return err
+	}
+	if !bytes.Equal(want, encoded[:len(encoded)-len(rest)]) {
+		return errors.New("signature is not the DER encoding of SEQUENCE{r, s}")
+	}
+	return nil
 }
 
 func generateHash(algo HashAlgorithm, data []byte) ([]byte, crypto.Hash, error) {
@@ -94,6 +109,9 @@ func VerifySignature(pubKey crypto.PublicKey, data []byte, sig DigitallySigned) 
 		if dsaSig.R.Sign() <= 0 || dsaSig.S.Sign() <= 0 {
 			return errors.New("DSA signature contained zero or negative values")
 		}
+		if err := checkExactDER(sig.Signature, rest, dsaSig); err != nil {
+			return fmt.Errorf("failed to unmarshal DSA signature: %v", err)
+		}
 		if !dsa.Verify(dsaKey, hash, dsaSig.R, dsaSig.S) {
 			return errors.New("failed to verify DSA signature")
 		}
@@ -112,6 +130,9 @@ func VerifySignature(pubKey crypto.PublicKey, data []byte, sig DigitallySigned) 
 		}
 		if ecdsaSig.R.Sign() <= 0 || ecdsaSig.S.Sign() <= 0 {
 			return errors.New("ECDSA signature contained zero or negative values")
+		}
+		if err := checkExactDER(sig.Signature, rest, ecdsaSig); err != nil {
+			return fmt.Errorf("failed to unmarshal ECDSA signature: %v", err)
 		}
 
 		if !ecdsa.Verify(ecdsaKey, hash, ecdsaSig.R, ecdsaSig.S) {
